@@ -446,6 +446,9 @@ func (s *Set) Value(_ context.Context, t *dials.Type) (reflect.Value, error) {
 		}
 	}
 
+	// start from an empty translated value every time: a Set may be asked for
+	// its value more than once (e.g. by two Config calls)
+	s.trnslVal.Set(reflect.Zero(s.trnslVal.Type()))
 	s.Flags.Visit(func(f *pflag.Flag) {
 		fieldName, ok := s.flagFieldName[f.Name]
 		if !ok {
